@@ -428,6 +428,9 @@ Qed.
 Lemma rearmed_Inv m : Inv m -> rearmed m = m.
 Proof. intros HI. unfold rearmed. rewrite <- (inv_armed _ HI). destruct m; reflexivity. Qed.
 
+Lemma rearmed_set_armed m x : rearmed (set_armed m x) = rearmed m.
+Proof. reflexivity. Qed.
+
 Lemma finish_spec m id f f' :
   Inv m -> sget (m_flows m) id = Some f -> same_id f f' -> phase_ok f' ->
   exists o, arms o /\
@@ -630,8 +633,8 @@ Proof.
   match goal with |- context [fold_left (timeout_one now) ?d _] =>
     destruct (timeout_fold m now d [] HI) as (m1 & o1 & E1 & R1) end.
   rewrite E1. cbn [app].
-  destruct (reschedule_spec m1) as (o2 & E2 & Harm). rewrite E2. cbn [fst snd].
-  rewrite (rearmed_Inv m1 (rems_inv _ _ _ R1 HI)).
+  destruct (reschedule_spec (set_armed m1 None)) as (o2 & E2 & Harm). rewrite E2. cbn [fst snd].
+  rewrite rearmed_set_armed, (rearmed_Inv m1 (rems_inv _ _ _ R1 HI)).
   eapply rems_app; [exact R1|]. rewrite <- (app_nil_r o2). apply rems_arms; [exact Harm|constructor].
 Qed.
 
@@ -936,14 +939,29 @@ Proof.
     unfold handle_timeout in Hg.
     set (due := map fst (filter (fun kf => N.leb (f_deadline (snd kf)) now) (sitems (m_flows m)))) in *.
     destruct (fold_left (timeout_one now) due (m, [])) as [m1 o1] eqn:Ef.
-    destruct (reschedule_spec m1) as (o2 & E2 & _). rewrite E2 in Hg. cbn [fst] in Hg.
-    change (m_flows (rearmed m1)) with (m_flows m1) in Hg.
+    destruct (reschedule_spec (set_armed m1 None)) as (o2 & E2 & _). rewrite E2 in Hg. cbn [fst] in Hg.
+    change (m_flows (rearmed (set_armed m1 None))) with (m_flows m1) in Hg.
     eapply (timeout_fold_gone now due m [] m1 o1 HI Ef id g); [|exact Hg].
     unfold due. apply in_map_iff. exists (id, g). split; [reflexivity|].
     apply filter_In. split; [apply sitems_spec; exact Hg0 | exact Ed]. }
   split; [exact H|].
   intros d Hd. pose proof (armed_coherent _ HI') as Hc. rewrite Hd in Hc.
   destruct Hc as ((id & f & Hg & <-) & _). eapply H; eauto.
+Qed.
+
+(** teardown: every firing re-emits the timer request while a flow remains, so a
+    firing that found nothing due (the wheel fires up to half a tick early) does
+    not leave the flows without a timer *)
+Lemma timeout_rearms m now :
+  match m_armed (fst (step hash m now ITimeout)) with
+  | Some d => In (None, ArmTimer d) (snd (step hash m now ITimeout))
+  | None => True
+  end.
+Proof.
+  cbn [step]. unfold handle_timeout.
+  destruct (fold_left _ _ _) as [m1 o1]. unfold reschedule. cbn [m_armed set_armed m_flows].
+  destruct (min_deadline (m_flows m1)) as [d|]; cbn; [|exact I].
+  apply in_or_app. right. left. reflexivity.
 Qed.
 
 (** teardown: close_all leaves no flow, no table entry and no armed timer *)
